@@ -42,15 +42,16 @@ CLAIMS = {
              'no NaN in templates; pairwise distinct channel positions; "near" is DEFINED as membership in the result of get_closest_channels (A-DEF).',
         assumptions=['A-LIB 1-D NumPy array theory (pyvc/npth.py)', 'A-REAL floats as reals, no NaN']),
     'C06': dict(level='proof',
-        text='PROVED for all rank-2 inputs (any number of spikes, stored columns, requested channels): from_sparse returns one row per spike and one column per requested channel, holding at (spike, channel) a stored value '
-             'whose column index names that channel and zero where the channel is not stored, raises NotImplementedError exactly for repeated requested channels, and never indexes out of range (the order of the request '
-             'is irrelevant because the clause is per requested position); get_template_features for every storage layout (with/without a spike-id row table, with/without a column table): the value at (spike, template) is the '
-             'stored value of THE stored row of that spike in the column naming that template, else zero. BOUNDED only: get_features (rank-3 data and the NaN pre-fill), extra trailing dimensions, the PCA fallback from '
-             'extracted waveforms, unstored spikes (known finding), real files.',
-        note='Assumed: the rank-2 NumPy theory of pyvc/mat.py (shape, zeros, tile, elementwise isin/mask assignment, scatter with index matrices where one writer wins on collisions, column slices, row gather), the '
-             'flatten/reshape bijection (A-FLAT) through which the proved 1-D contract of _index_of is read for a flattened matrix, integer casts keep values (A-NOOVF), reals for floats; np.unique has as many '
-             'elements as its argument exactly when the argument has no repetition (counting fact) and np.intersect1d returns a strictly increasing subset argument unchanged (Lean lemma L1).',
-        assumptions=['A-LIB rank-2 NumPy array theory (pyvc/mat.py)', 'A-LIB 1-D NumPy array theory (pyvc/npth.py)', 'A-FLAT', 'A-NOOVF', 'A-REAL floats as reals']),
+        text='PROVED for all inputs of rank 2 and rank 3 (any number of spikes, stored columns, requested channels, any trailing length): from_sparse returns one row per spike and one column per requested channel, holding at '
+             '(spike, channel) a stored value whose column index names that channel and zero where the channel is not stored, raises NotImplementedError exactly for repeated requested channels, and never indexes out of '
+             'range (the order of the request is irrelevant: the clause is per requested position); get_features and get_template_features for every storage layout (with/without a spike-id row table, with/without a column '
+             'table, requested spikes in any order): the value at (spike, channel/template) of a stored requested spike is the stored value of THE stored row of that spike in the column naming that channel, else zero. '
+             'BOUNDED only: the PCA fallback from extracted waveforms, more than one trailing dimension, what unstored requested spikes get (get_template_features: known finding), real files.',
+        note='Assumed: the rank-2/3 NumPy theory of pyvc/mat.py (shape, zeros/empty, tile, elementwise isin/mask assignment, scatter with index matrices and row scatter where one writer wins on collisions, column slices, '
+             'row gather; a rank-3 array is a matrix whose cells are opaque trailing vectors), the flatten/reshape bijection (A-FLAT) through which the proved 1-D contract of _index_of is read for a flattened matrix, integer '
+             'casts keep values (A-NOOVF), reals for floats; np.unique has as many elements as its argument exactly when the argument has no repetition (counting fact) and np.intersect1d returns a strictly increasing '
+             'subset argument unchanged (Lean lemma L1). get_template_features with a row table additionally requires increasing requested ids (it returns rows in sorted order).',
+        assumptions=['A-LIB rank-2/3 NumPy array theory (pyvc/mat.py)', 'A-LIB 1-D NumPy array theory (pyvc/npth.py)', 'A-FLAT', 'A-NOOVF', 'A-REAL floats as reals']),
     'C07': dict(level='proof',
         text='PROVED for all arrays: _unique (strictly increasing, exactly the non-negative values present), _spikes_in_clusters (strictly increasing, exactly the spikes of requested clusters), _index_of '
              '(position of every element in a distinct lookup with entries >= -1, table indices in range). BOUNDED only: _spikes_per_cluster (partition, stability), _flatten_per_cluster, grouped_mean, the '
